@@ -1476,7 +1476,8 @@ fn assignment_stmt_to_asg_stmt(
         let expr_type = expr.get_type();
         // Check that types match, but only if lhs has been declared, in which case
         // recording a type error would be redundant.
-        if symbol_ok && expr_type != &symbol_type {
+        // Types that differ only in constness are compatible (eg. assigning a literal).
+        if symbol_ok && !types::equal_up_to_constness(expr_type, &symbol_type) {
             if expr_type.equal_up_to_dims(&symbol_type) {
                 context.insert_error(IncompatibleDimensionError, assignment_stmt);
             } else if let asg::Expr::Literal(asg::Literal::Int(intlit)) = expr.expression() {
